@@ -688,6 +688,8 @@ class World:
     # ------------------------------------------------------------------ HPC moves
     def node_host(self, hid):
         b = self.batches[hid]["b"]
+        if self.scn.get("onehost"):
+            return "node1"          # the scheduler places every batch on the same node: all node-side rounds share a hostname
         return self.scn.get("nodehost", {}).get(str(b), f"node{b}")
 
     def _start_batch(self, hid):
@@ -700,7 +702,10 @@ class World:
 
     def _job_exit(self, h):
         hd = self.handles[h]
-        rc = int(self.scn.get("rc", {}).get(hd["job"], 0))
+        # exit codes may differ from one epoch (resubmission) to the next: a job that passed can fail when it is rerun
+        nres = sum(1 for q in self.procs if q.label == "resubmit-jobs")
+        rcs = self.scn.get("rc_by_epoch", {}).get(str(nres)) or self.scn.get("rc", {})
+        rc = int(rcs.get(hd["job"], 0))
         hd["state"] = "done"
         hd["rc"] = rc
         if 0 < hd["owner"] <= len(self.procs):
